@@ -9,7 +9,7 @@ THEOREMS = ['C05_ampcons', 'C05_ampcons_dir', 'C05_ampcons_dir_both', 'C05_flank
             'C05_mono_steps', 'C05_mono_range', 'C05_rank', 'C05_rank_undefined', 'C05_rank_range', 'C05_rank_order', 'C05_routing']
 RULE = ("(a) synthetic tables: rise / decay voltages over small integers incl. 0 and negatives (NaN, -inf, clamp, ratios > 1), periods, volt_amp with ties, both "
         "centrings, directions both/next/last, n = 0..12; (b) tables from compute_features(burst_method='cycles') on generated signals (tie-rich quantised / clipped / "
-        "plateau families included), both centrings, row labels 0..n-1 / offset (a cut table) / reversed (positions, not labels, define neighbours): amp_fraction, amp_consistency, period_consistency, monotonicity columns vs the Lean model and the centring-free "
+        "plateau families included), both centrings, row labels 0..n-1 / offset (a cut table) / reversed (positions, not labels, define neighbours), one peak-centred table in six also WITHOUT its sample columns (known finding): amp_fraction, amp_consistency, period_consistency, monotonicity columns vs the Lean model and the centring-free "
         "Lean specification (flank sequence; strict steps); NaN pattern exact, finite values within 1e-12; distinct = distinct inputs; non-trivial = >= 3 cycles")
 ASSUMPTIONS = ["pandas Series.rank(method='average'), np.nanmin, np.mean are transcribed primitives (E6)", "finite values compared within 1e-12 relative"]
 BATCH = 300
@@ -69,7 +69,7 @@ def generate(ctx):
         s = gen.make_signal(ctx.sub_rng(i), family=fams[i % len(fams)])
         cases.append(dict(kind='signal', sig=proto.arr2hex(s['sig']), fs=s['fs'], f_range=list(s['f_range']),
                           center=str(rng.choice(['peak', 'trough'])), family=s['family'], lab=int(rng.choice([0, 0, 1, 2])),
-                          dt=(str(rng.choice(['uint8', 'uint16', 'int16', 'int8'])) if rng.random() < 0.2 else None), reuse=bool(rng.random() < 0.25)))
+                          dt=(str(rng.choice(['uint8', 'uint16', 'int16', 'int8'])) if rng.random() < 0.2 else None), reuse=bool(rng.random() < 0.25), nosamp=bool(i % 6 == 1)))
     return cases
 
 def _relabel(df, lab):
@@ -127,6 +127,13 @@ def evaluate(ctx, cases):
             reqs.append('mono.spec %s %s %s' % (T, proto.enc_list(x), rows)); items.append(('mono_spec', ['ok', [float(v) for v in df['monotonicity'].values]], 'judge'))
             # the columns of the returned table are these functions' values
             items.append(('cols', None, 'cols'))
+            if pc and c.get('nosamp'):
+                # the same PEAK-centred table WITHOUT its sample columns (compute_features(return_samples=False)): the statement's pairing is the peak-centred
+                # one; the code recognises the centring by a `sample_peak` column only (KNOWN FINDING, known_findings.json: it then pairs the trough-centred way)
+                dfn = df[[col for col in df.columns if not col.startswith('sample_')]]
+                for dr in DIRS:
+                    reqs.append('ampcons.spec T %s %s %s' % (dr, r, d)); reqs.append('ampcons.spec F %s %s %s' % (dr, r, d))
+                    items.append(('ac_nosamp_' + dr, _wrap(lambda: compute_amp_consistency(dfn, direction=dr)), 'known_ac'))
         plan.append(dict(j0=j0, items=items, df=df, n=len(df)))
     ans = proto.run_driver(reqs)
     out = []
@@ -136,6 +143,7 @@ def evaluate(ctx, cases):
             ctx.hist('outcome', 'compute_features raised (C01): ' + p['skip'])
             out.append(Result(c, sig=key, nontrivial=False, info=dict(skipped=p['skip']))); continue
         judge_ok, corr_ok, info = True, True, {}
+        known = False
         j = p['j0']
         for name, impl, role in p['items']:
             if role == 'cols':
@@ -159,6 +167,12 @@ def evaluate(ctx, cases):
                     except Exception as e:
                         judge_ok = False; info['relabelled'] = type(e).__name__ + ': ' + str(e)[:100]
                 continue
+            if role == 'known_ac':
+                a, b = ans[j], ans[j + 1]; j += 2
+                if not _same(impl, a):
+                    if _same(impl, b): known = True
+                    else: judge_ok = False; info[name] = dict(impl=impl, expected=a)
+                continue
             a = ans[j]; j += 1
             ok = _same(impl, a)
             if not ok:
@@ -166,5 +180,8 @@ def evaluate(ctx, cases):
                 if role in ('corr', 'both'): corr_ok = False
                 if role in ('judge', 'both'): judge_ok = False
         ctx.hist('kind', c['kind'])
-        out.append(Result(c, judge_ok=judge_ok, corr_ok=corr_ok, sig=key, nontrivial=p['n'] >= 3, info=info))
+        fkey = None
+        if judge_ok and known:      # the ONLY thing wrong is what the known finding predicts (exactly the trough-centred pairing)
+            judge_ok = False; fkey = 'peak-centred-table-without-sample-columns'; info['known'] = fkey; ctx.hist('known_finding', fkey)
+        out.append(Result(c, judge_ok=judge_ok, corr_ok=corr_ok, sig=key, nontrivial=p['n'] >= 3, info=info, finding_key=fkey))
     return out
